@@ -5,10 +5,10 @@ from imports import imported
 
 PROPERTY = "C09"
 LEVEL = "proof"
-EXPLANATION = ("Proof of the operand-selection rules of the SuperscalarHash generator on the real selectDestination / selectSource / selectRegister (ready at the cycle, distinct from the source unless allowed, no chained multiplication unless permitted, not the same group and parameter twice, r5 never the destination of IADD_RS and forced as source when it is one of two candidates) with their frame, and of the SuperscalarHash interpreter executeSuperscalar (each instruction kind computes what Table 6.1.1 prescribes for all register values; memory safety, frame and termination for every program of well-formed instructions). The scheduler, decoder-buffer choice, termination and the equality of the generated programs with the specification's generator are not decided.")
+EXPLANATION = ("Proof of the operand-selection rules of the SuperscalarHash generator on the real selectDestination / selectSource / selectRegister (ready at the cycle, distinct from the source unless allowed, no chained multiplication unless permitted, not the same group and parameter twice, r5 never the destination of IADD_RS and forced as source when it is one of two candidates) with their frame, and of the SuperscalarHash interpreter executeSuperscalar (each instruction kind computes what Table 6.1.1 prescribes for all register values). The scheduler, decoder-buffer choice, termination and the equality of the generated programs with the specification's generator are not decided.")
 TRUSTED = ['mulh / smulh / rotr / randomx_reciprocal stand-ins with contracts (their bodies: C17, C18); the three in-line 64-bit products of executeSuperscalar are rewritten to RXV_MUL64 by the extraction (uninterpreted in the step obligation)', 'stand-ins with contracts: instruction-type query (info_->getType()) and generator draw (Blake2Generator::getUInt32)', 'std::vector<int> of candidate registers is a fixed-capacity (8) list stand-in; exceeding the capacity is an assertion failure']
 ASSUMPTIONS = []
-NOT_DECIDED = ['generateSuperscalar scheduler (port map, decode buffers, throw-away counter, termination, program size bounds)', "equality of the eight generated programs with the specification's generator for every key", 'generateSuperscalarCode (native code) vs executeSuperscalar equivalence', 'address-register choice (longest dependency chain)']
+NOT_DECIDED = ['executeSuperscalar memory safety / frame / termination for every program size as one loop contract (attempt obligation; the per-instruction step is decided)', 'generateSuperscalar scheduler (port map, decode buffers, throw-away counter, termination, program size bounds)', "equality of the eight generated programs with the specification's generator for every key", 'generateSuperscalarCode (native code) vs executeSuperscalar equivalence', 'address-register choice (longest dependency chain)']
 INC = ["@suites/common"]
 
 
@@ -23,7 +23,8 @@ def sel(name, entry, fn):
 OBLIGATIONS = [
     sel("select_destination_obeys_operand_rules_and_frame", "h_select_dst", "SuperscalarInstruction_selectDestination"),
     sel("select_source_obeys_operand_rules_and_frame", "h_select_src", "SuperscalarInstruction_selectSource"),
-    {"name": "execute_superscalar_safe_framed_terminating_for_every_program", "incdirs": INC,
+    # loop contract over every program size: exhausted 30 GB / 18 min; kept as an attempt, listed as not decided
+    {"name": "execute_superscalar_safe_framed_terminating_for_every_program", "incdirs": INC, "tier": "attempt",
      "files": [{"cxx": dict(XS.SS_EXEC, pre_rewrites=XS.SS_EXEC["pre_rewrites"] + [{"name": "instruction at position j -> any well-formed instruction", "pattern": r"prog\(j\)", "repl": "(*rxv_any_instruction(&prog, j))"}]),
                 "out": "ss.c", "header": True, "loops": [{"function": "executeSuperscalar", "expect_loops": 1, "loops": {"0": "RXV_SS_LOOP_INVARIANT"}}]}, "harness_ss_exec.c"],
      "defines": ['RXV_CONTRACTS_H="contracts_ss_exec.h"', "EVERY_SIZE=1"], "entry": "h_exec_all", "enforce": "executeSuperscalar",
